@@ -242,13 +242,13 @@ def flEnabled (s : St) : Bool :=
   | .exited => false
   | _ => true
 
-/-- drive the flush thread and the loop until nothing moves (driver macro: `fuel` rounds of
-    "flush thread steps while it can, then the loop runs one callback") -/
+/-- drive the loop and the flush thread until nothing moves (driver macro): the loop first runs
+    what it has accepted, then the flush thread takes its next section -/
 def settle : Nat → St → St
   | 0, s => s
   | n + 1, s =>
-    if flEnabled s then settle n (flStep s)
-    else if !s.pending.isEmpty then settle n (runStep s)
+    if !s.pending.isEmpty then settle n (runStep s)
+    else if flEnabled s then settle n (flStep s)
     else s
 
 end Ptk.C20
